@@ -643,7 +643,12 @@ func (c *handlerCtx) handleReply() {
 	if c.callCmd.stat.OK() {
 		stat := c.input.Status()
 		if stat.OK() {
-			stat = c.pluginContainer.postReadReplyBody(c)
+			if !c.stat.OK() {
+				// the reply was read but its body could not be decoded into the result
+				stat = c.stat
+			} else {
+				stat = c.pluginContainer.postReadReplyBody(c)
+			}
 		}
 		c.callCmd.stat = stat
 	}
